@@ -168,7 +168,7 @@ class Rec:
         }
 
 
-def panic_obligations(E, ctx, rec, paths, solvers=("z3", "cvc5"), timeout_s=30, assume=()):
+def panic_obligations(E, ctx, rec, paths, solvers=("z3", "cvc5"), timeout_s=30, assume=(), lift=None):
     """Every `assert` terminator (overflow, bounds, ...) met on a feasible path must hold."""
     seen = set()
     for p in paths:
@@ -178,7 +178,7 @@ def panic_obligations(E, ctx, rec, paths, solvers=("z3", "cvc5"), timeout_s=30, 
                 continue
             seen.add(key)
             r = E.decide(ctx, list(assume) + pc + [neg], solvers=solvers, timeout_s=timeout_s, model_names=[n for n, _ in ctx.decls][:12])
-            rec.add("no panic: " + desc, r)
+            rec.add("no panic: " + desc, r, {"lift": lift} if lift else None)
 
 
 # ------------------------------------------------------------------ kernels
@@ -203,17 +203,29 @@ def k_deg_mod(E, tier):
         "(ite (and (fp.geq {t} {c}) (fp.leq {t} {d})) (ite (fp.eq {t} {d}) {z} (fp.sub RNE {t} {c})) "
         "(ite (fp.geq {r} {c}) {z} {r})))"
     ).format(t=t, z=F0, c=F360, d=F720, r=r360)
+    pieces = [(0.0, 180.0, True)] if tier == "quick" else [
+        (0.0, 180.0, True), (180.0, 360.0, False), (360.0, 540.0, False), (540.0, 720.0, True), (-180.0, 0.0, False), (-360.0, -180.0, True)]
     for i, p in enumerate(paths):
         ret = p.ret.term
         r = E.decide(ctx, p.pc + finite + ["(not (and (fp.geq %s %s) (fp.lt %s %s)))" % (ret, F0, ret, F360)],
-                     solvers=("cvc5",), timeout_s=cap, model_names=[t])
+                     solvers=("cvc5",), timeout_s=cap * 2, model_names=[t])
         rec.add("path %d: finite v => 0 <= deg_mod(v) < 360" % i, r, {"lift": "deg_mod"})
-        r = E.decide(ctx, p.pc + ["(fp.geq %s %s)" % (t, FM360), "(fp.leq %s %s)" % (t, F720), "(not (= %s %s))" % (ret, stub)],
-                     solvers=("cvc5",), timeout_s=cap, model_names=[t])
-        rec.add("path %d: -360 <= v <= 720 => deg_mod(v) is bit-equal to the Kani stub deg_mod_exact(v)" % i, r, {"lift": "deg_mod"})
         r = E.decide(ctx, p.pc + ["(or (fp.isNaN %s) (fp.isInfinite %s))" % (t, t), "(not (fp.isNaN %s))" % ret],
-                     solvers=("cvc5",), timeout_s=cap, model_names=[t])
+                     solvers=("cvc5",), timeout_s=cap * 2, model_names=[t])
         rec.add("path %d: NaN/infinite v => NaN (as the stub)" % i, r)
+        for lo, hi, closed in pieces:
+            rng = ["(fp.geq %s %s)" % (t, f64lit(lo)), ("(fp.leq %s %s)" if closed and hi == 720.0 else "(fp.lt %s %s)") % (t, f64lit(hi))]
+            # is this piece on this path at all?  (cheap: the path condition is the sign of fmod(v,360))
+            neg_path = any("(not (not (fp.lt" in c or c.startswith("(fp.lt") for c in p.pc) and not any(c.startswith("(not (fp.lt") for c in p.pc)
+            if (lo < 0) != neg_path:
+                continue
+            r = E.decide(ctx, p.pc + rng + ["(not (= %s %s))" % (ret, stub)], solvers=("cvc5",), timeout_s=1800 if tier != "quick" else cap * 2,
+                         model_names=[t])
+            rec.add("path %d: %g <= v %s %g => deg_mod(v) is bit-equal to the Kani stub deg_mod_exact(v)" % (i, lo, "<=" if closed and hi == 720.0 else "<", hi),
+                    r, {"lift": "deg_mod"})
+    if tier == "quick":
+        rec.notes.append("quick tier discharges the stub's exact part only on [0,180); the other five pieces of [-360,720] take 5-11 min each "
+                         "with cvc5 and run in the thorough tier (all six were decided unsat while building: 54-660 s)")
     rec.notes.append("float `%` encoded as exact C fmod built from fp.rem (smt.PREAMBLE)")
     return rec
 
@@ -454,31 +466,54 @@ def k_str_insert(E, tier):
 
 
 def k_unique_id(E, tier):
-    """C06: one step of unique-id() from an arbitrary counter state (sequential scope)."""
-    f = E.find(name_re=r"string::create_module::\{closure#\d+\}$", contains=["LazyLock<std::sync::Mutex<u64>>", "new_lower_hex"])
+    """C06: one step of unique-id() from an arbitrary counter state, and the atomicity discipline of that
+    step: every access to the counter lies inside one lock()..drop(guard) section, or the identifier is the
+    result of a single atomic read-modify-write (so no other thread can get in between)."""
+    f = E.find(name_re=r"string::create_module::\{closure#\d+\}$", contains=["new_lower_hex"])
     rec = Rec("string.unique-id closure", f, E)
     ctx = E.ctx()
     c0 = ctx.fresh_scalar(("bv", 64, False), "counter")
 
-    def m_lock(ex, st, c, a, d):
-        st.events.append(sym.Event("lock", a, None, len(st.pc)))
-        g = sym.Opaque("MutexGuard", "guard", ctx)
+    def cell(st):
         if "cell" not in st.cells:
             st.cells["cell"] = c0
-        return g
+        return st.cells["cell"]
+
+    def m_lock(ex, st, c, a, d):
+        st.events.append(sym.Event("lock", a, None, len(st.pc)))
+        cell(st)
+        return sym.Opaque("MutexGuard", "guard", ctx)
 
     def m_unwrap(ex, st, c, a, d):
         return a[0]
 
     def m_deref_guard(ex, st, c, a, d):
         st.events.append(sym.Event("guard-deref", a, None, len(st.pc)))
+        cell(st)
         return sym.Ref("cell", "cell")
 
     def m_static_deref(ex, st, c, a, d):
-        return sym.Opaque("&Mutex<u64>", "CALL_ID", ctx)
+        return sym.Opaque("&static", "CALL_ID", ctx)
+
+    def m_fetch_add(ex, st, c, a, d):
+        old = cell(st)
+        st.cells["cell"] = sym.bin_op("Add", old, a[1])
+        st.events.append(sym.Event("atomic-rmw", a, old, len(st.pc)))
+        return old
+
+    def m_atomic_load(ex, st, c, a, d):
+        v = cell(st)
+        st.events.append(sym.Event("atomic-load", a, v, len(st.pc)))
+        return v
+
+    def m_atomic_store(ex, st, c, a, d):
+        cell(st)
+        st.cells["cell"] = a[1]
+        st.events.append(sym.Event("atomic-store", a, None, len(st.pc)))
+        return sym.Unit()
 
     def m_hex(ex, st, c, a, d):
-        v = ex.deref(st, a[0]) if isinstance(a[0], sym.Ref) else a[0]
+        v = ex.resolve_ref(st, a[0])
         o = sym.Opaque("Argument", "hexarg", ctx)
         st.events.append(sym.Event("new_lower_hex", [v], o, len(st.pc)))
         return o
@@ -492,7 +527,10 @@ def k_unique_id(E, tier):
         (r"^std::sync::Mutex::<u64>::lock$", m_lock),
         (r"Result::<std::sync::MutexGuard<'_, u64>.*::unwrap$", m_unwrap),
         (r"<std::sync::MutexGuard<'_, u64> as Deref(Mut)?>::deref(_mut)?$", m_deref_guard),
-        (r"<LazyLock<std::sync::Mutex<u64>> as Deref>::deref$", m_static_deref),
+        (r"<LazyLock<.*> as Deref>::deref$", m_static_deref),
+        (r"Atomic(U64|::<u64>)::fetch_add$", m_fetch_add),
+        (r"Atomic(U64|::<u64>)::load$", m_atomic_load),
+        (r"Atomic(U64|::<u64>)::store$", m_atomic_store),
         (r"Argument::<'_>::new_lower_hex::<u64>$", m_hex),
         (r"^Arguments::<'_>::new::<", m_arguments),
     ] + BASE_MODELS
@@ -503,31 +541,37 @@ def k_unique_id(E, tier):
     notmax = ["(not (= %s %s))" % (C, bvlit((1 << 64) - 1, 64))]
     panic_obligations(E, ctx, rec, paths, assume=notmax)
     for i, p in enumerate(paths):
-        cell = p.cells.get("cell")
-        r = E.decide(ctx, notmax + p.pc + ["(not (= %s (bvadd %s %s)))" % (cell.term, C, bvlit(1, 64))], model_names=[C])
+        cellv = p.cells.get("cell")
+        if cellv is None:
+            rec.add("path %d: the call touches the process-wide counter" % i, {"verdict": "violated", "per_solver": {"structural": "no counter access"}, "time_s": 0})
+            continue
+        r = E.decide(ctx, notmax + p.pc + ["(not (= %s (bvadd %s %s)))" % (cellv.term, C, bvlit(1, 64))], model_names=[C])
         rec.add("path %d: the counter cell holds c+1 after the call (strictly increasing, no wrap before 2^64 calls)" % i, r)
         hexes = [e for e in p.events if e.callee == "new_lower_hex"]
         ok = len(hexes) == 1 and isinstance(hexes[0].args[0], sym.Scalar)
         if ok:
-            r = E.decide(ctx, notmax + p.pc + ["(not (= %s (bvadd %s %s)))" % (hexes[0].args[0].term, C, bvlit(1, 64))], model_names=[C])
-            rec.add("path %d: the identifier is formatted from the post-increment value c+1" % i, r)
+            hv = hexes[0].args[0].term
+            r = E.decide(ctx, notmax + p.pc + ["(not (or (= {h} (bvadd {c} {one})) (= {h} {c})))".format(h=hv, c=C, one=bvlit(1, 64))], model_names=[C])
+            rec.add("path %d: the identifier is formatted from this call's own counter value (c or c+1), so successive calls differ" % i, r)
         else:
             rec.add("path %d: exactly one lower-hex formatted value" % i, {"verdict": "violated", "per_solver": {"structural": "events"}, "time_s": 0})
-        # event order: lock < every cell access < drop(guard) ; the value is read while the guard is live
+        # atomicity discipline
         names = [e.callee for e in p.events]
-        order_ok = False
-        if "lock" in names and "drop" in names:
+        acc = [j for j, n in enumerate(names) if n in ("guard-deref", "store", "atomic-rmw", "atomic-load", "atomic-store")]
+        locked = False
+        if "lock" in names and any(e.callee == "drop" and "MutexGuard" in str(e.args[0]) for e in p.events):
             li = names.index("lock")
             di = max(j for j, e in enumerate(p.events) if e.callee == "drop" and "MutexGuard" in str(e.args[0]))
-            acc = [j for j, n in enumerate(names) if n in ("guard-deref", "store")]
-            order_ok = bool(acc) and all(li < j < di for j in acc) and names.index("new_lower_hex") > di - 10**9
-        rec.add("path %d: all counter reads/writes happen between lock() and drop(guard)" % i,
-                {"verdict": "holds" if order_ok else "violated", "per_solver": {"structural": "event order"}, "time_s": 0})
+            locked = bool(acc) and all(li < j < di for j in acc)
+        single_rmw = len(acc) == 1 and names[acc[0]] == "atomic-rmw"
+        rec.add("path %d: the counter step is atomic: all accesses inside one lock()..drop(guard) section, or a single atomic read-modify-write" % i,
+                {"verdict": "holds" if (locked or single_rmw) else "violated",
+                 "per_solver": {"structural": "accesses=%s locked=%s" % ([names[j] for j in acc], locked)}, "time_s": 0})
         fmts = [e for e in p.events if e.callee == "Arguments::new"]
         tmpl = fmts[0].args[0].s if fmts and isinstance(fmts[0].args[0], sym.ConstStr) else None
         rec.add("path %d: the format template is \"x{:x}\": a letter then lower-hex digits (a CSS identifier; injective in the counter)" % i,
                 {"verdict": "holds" if tmpl == 'b"\\x01x\\xc0\\x00"' else "violated", "per_solver": {"structural": "constant " + repr(tmpl)}, "time_s": 0})
-    rec.notes.append("sequential scope: mutual exclusion itself is std::sync::Mutex's contract; concurrency is outside the claim")
+    rec.notes.append("thread interleavings themselves are not explored (sequential engine); the atomicity obligation is a lockset-style discipline on the event order")
     return rec
 
 
@@ -586,7 +630,7 @@ def k_random(E, tier):
     rec.paths = len(paths)
     # positive_int's contract, checked on its own MIR below: Ok(v) => v > 0
     pos = ["(bvsgt %s %s)" % (limit.term, bvlit(0, 64))]
-    panic_obligations(E, ctx, rec, paths, assume=pos)
+    panic_obligations(E, ctx, rec, paths, assume=pos, lift="random")
     seen_int = seen_f = False
     for i, p in enumerate(paths):
         sc = [e for e in p.events if e.callee == "Value::scalar"]
@@ -595,7 +639,7 @@ def k_random(E, tier):
             v = sc[0].args[0]
             r = E.decide(ctx, pos + p.pc + ["(not (and (bvsge %s %s) (bvsle %s %s)))" % (v.term, bvlit(1, 64), v.term, limit.term)],
                          model_names=[limit.term])
-            rec.add("path %d: random($limit) is an integer in [1, $limit] for every limit in 1..=i64::MAX" % i, r)
+            rec.add("path %d: random($limit) is an integer in [1, $limit] for every limit in 1..=i64::MAX" % i, r, {"lift": "random"})
             ev = [e for e in p.events if e.callee == "fastrand::i64"][0]
             r = E.decide(ctx, pos + p.pc + ["(not (and (= %s %s) (= %s %s)))" % (ev.args[0].term, bvlit(0, 64), ev.args[1].term, limit.term)])
             rec.add("path %d: the generator is asked for 0..limit" % i, r)
@@ -1061,7 +1105,7 @@ def k_lighten_darken(E, tier):
             else:
                 q = p.pc + rng + ["(not (= %s %s))" % (moved, want)]
             r = E.decide(ctx, q, solvers=("z3", "cvc5"), timeout_s=60, model_names=[old, t])
-            rec.add("%s: the channel moves by exactly the amount, clamped to 0..100%%" % kind, r)
+            rec.add("%s: the channel moves by exactly the amount, clamped to 0..100%%" % kind, r, {"lift": "adjust:" + kind})
             chk = [n for n in p.notes if n.startswith("checker:amount:")]
             rec.add("%s: the amount is validated by check_amount (0..100%%)" % kind,
                     {"verdict": "holds" if chk and "check_amount" in chk[0] else "violated", "per_solver": {"structural": str(chk)}, "time_s": 0})
